@@ -30,6 +30,7 @@ import (
 
 type c10Step struct {
 	// write | frame | expect | user_send | user_shutdown | close |
+	// user_sendfor (SendFor(GetReaderCapabilities, &GetReaderCapabilitiesResponse{}): the reply is DECODED in the caller) |
 	// peer_mute (the peer stops reading what the client writes) |
 	// user_cancel (cancel the context of the named user call, wait until the call returned) |
 	// client_close (c.Close(), wait until the user calls returned)
@@ -324,7 +325,7 @@ stepLoop:
 				break stepLoop
 			}
 			ids[st.Name] = id
-		case "user_send", "user_shutdown":
+		case "user_send", "user_shutdown", "user_sendfor":
 			u := &c10User{Name: st.Name, Kind: st.Op[5:]}
 			users[st.Name] = u
 			userOrder = append(userOrder, st.Name)
@@ -334,7 +335,14 @@ stepLoop:
 			go func(st c10Step) {
 				defer uwg.Done()
 				var r c10User
-				if st.Op == "user_send" {
+				if st.Op == "user_sendfor" {
+					resp := &GetReaderCapabilitiesResponse{}
+					err := c.SendFor(uctx, &GetReaderCapabilities{}, resp)
+					r = c10User{Returned: true, Err: errClass(err)}
+					if err != nil {
+						r.ErrText = err.Error()
+					}
+				} else if st.Op == "user_send" {
 					typ, data, err := c.SendMessage(uctx, MessageType(st.Typ), nil)
 					r = c10User{Returned: true, Err: errClass(err), Typ: int(typ), DLen: len(data), MD5: md5hex(data)}
 					if err != nil {
@@ -359,6 +367,9 @@ stepLoop:
 			want := st.Typ
 			if st.Op == "user_shutdown" {
 				want = 14
+			}
+			if st.Op == "user_sendfor" {
+				want = int(MsgGetReaderCapabilities)
 			}
 			id, ok := expect(want)
 			if !ok {
